@@ -41,7 +41,7 @@ CONSTANTS Names,        \* 1..K (rank in byte order)
           Expiries,     \* the expiry arguments of Get
           MaxAge, Period, MaxTime,
           Timely,       \* BOOLEAN
-          Witness,      \* BOOLEAN: collect reachability witnesses in `wit`
+          Witness,      \* BOOLEAN: print reachability witnesses ("@@W ...")
           Mutant
 
 None == [a |-> 0]
@@ -52,12 +52,14 @@ VARIABLES now, In, seen,
           tickc, nextTick,            \* ticker channel (0/1), next grid point
           lastExp,                    \* expiry of the last Get (only deviations read it)
           H, lastc, consAt, consumed, \* history
-          kn, ob, dd, ngets, afail, bfail,
-          wit
+          kn, ob, dd, ngets, afail, bfail
 vars == <<now, In, seen, ppc, prec, rpc, rexp, rg0, tickc, nextTick, lastExp, H, lastc, consAt, consumed,
-          kn, ob, dd, ngets, afail, bfail, wit>>
+          kn, ob, dd, ngets, afail, bfail>>
 
-W(x) == IF Witness THEN wit \cup x ELSE wit
+\* reachability witnesses: printed once per TLC worker (register 2), no state
+ASSUME TLCSet(2, {})
+W(x) == IF ~Witness \/ x \subseteq TLCGet(2) THEN TRUE
+        ELSE PrintT("@@W " \o ToString(x)) /\ TLCSet(2, TLCGet(2) \cup x)
 
 Init == /\ now = 0 /\ In = <<>> /\ seen = [n \in Names |-> None]
         /\ ppc = [p \in Producers |-> "idle"] /\ prec = [p \in Producers |-> None]
@@ -67,7 +69,6 @@ Init == /\ now = 0 /\ In = <<>> /\ seen = [n \in Names |-> None]
         /\ H = [n |-> <<>>, rs |-> <<>>, a0 |-> <<>>, a1 |-> <<>>]
         /\ lastc = [n \in Names |-> 0] /\ consAt = [n \in Names |-> 0] /\ consumed = {}
         /\ kn = <<>> /\ ob = <<>> /\ dd = <<>> /\ ngets = 0 /\ afail = {} /\ bfail = {}
-        /\ wit = {}
 
 \* ------------------------------------------------------------------ producers
 AddStart(p, n) ==
@@ -77,7 +78,7 @@ AddStart(p, n) ==
        /\ H' = [n |-> Append(H.n, n), rs |-> Append(H.rs, a), a0 |-> Append(H.a0, now), a1 |-> Append(H.a1, Inf)]
        /\ kn' = Append(kn, Inf) /\ ob' = Append(ob, Inf) /\ dd' = Append(dd, Inf)
     /\ ppc' = [ppc EXCEPT ![p] = "send"]
-    /\ wit' = W(IF Len(In) >= Cap THEN {"add_blocked"} ELSE {})
+    /\ W(IF Len(In) >= Cap THEN {"add_blocked"} ELSE {})
     /\ UNCHANGED <<now, In, seen, rpc, rexp, rg0, tickc, nextTick, lastExp, lastc, consAt, consumed, ngets, afail,
                    bfail>>
 
@@ -89,14 +90,14 @@ AddSend(p) ==
     /\ ppc' = [ppc EXCEPT ![p] = "idle"]
     /\ H' = [H EXCEPT !.a1[prec[p].a] = now]
     /\ UNCHANGED <<now, seen, prec, rpc, rexp, rg0, tickc, nextTick, lastExp, lastc, consAt, consumed, kn, ob, dd,
-                   ngets, afail, bfail, wit>>
+                   ngets, afail, bfail>>
 
 \* ------------------------------------------------------------------ readers
 GetCall(r, e) ==
     /\ rpc[r] = "idle" /\ ngets < MaxGets
     /\ rpc' = [rpc EXCEPT ![r] = "req"] /\ rexp' = [rexp EXCEPT ![r] = e]
     /\ rg0' = [rg0 EXCEPT ![r] = now] /\ ngets' = ngets + 1
-    /\ UNCHANGED <<now, In, seen, ppc, prec, tickc, nextTick, lastExp, H, lastc, consAt, consumed, kn, ob, dd, afail, bfail, wit>>
+    /\ UNCHANGED <<now, In, seen, ppc, prec, tickc, nextTick, lastExp, H, lastc, consAt, consumed, kn, ob, dd, afail, bfail>>
 
 \* ------------------------------------------------------------------ the manager
 MgrIn ==
@@ -110,7 +111,7 @@ MgrIn ==
        IN  /\ seen' = [seen EXCEPT ![r.n] = new]
            /\ lastc' = [lastc EXCEPT ![r.n] = r.a] /\ consAt' = [consAt EXCEPT ![r.n] = now]
            /\ consumed' = consumed \cup {r.a}
-           /\ wit' = W((IF old # None THEN {"overwrite"} ELSE {}) \cup
+           /\ W((IF old # None THEN {"overwrite"} ELSE {}) \cup
                        (IF old # None /\ old.t > r.t THEN {"stale_stamp_overwrites_newer"} ELSE {}) \cup
                        (IF now - r.t > MaxAge THEN {"consumed_when_already_old"} ELSE {}))
     /\ In' = Tail(In)
@@ -122,7 +123,7 @@ Dead(rec) == IF Mutant = "clean_inclusive" THEN CleanKey(rec) <= CleanCut ELSE E
 MgrClean ==
     /\ tickc = 1 /\ tickc' = 0
     /\ seen' = [n \in Names |-> IF seen[n] # None /\ Dead(seen[n]) THEN None ELSE seen[n]]
-    /\ wit' = W((IF \E n \in Names : seen[n] # None /\ seen[n].t = now - MaxAge THEN {"clean_boundary"} ELSE {}) \cup
+    /\ W((IF \E n \in Names : seen[n] # None /\ seen[n].t = now - MaxAge THEN {"clean_boundary"} ELSE {}) \cup
                 (IF seen' # seen THEN {"cleaned"} ELSE {}))
     /\ UNCHANGED <<now, In, ppc, prec, rpc, rexp, rg0, nextTick, lastExp, H, lastc, consAt, consumed, kn, ob, dd, ngets,
                    afail, bfail>>
@@ -150,7 +151,7 @@ MgrGet(r) ==
                                 \cup (IF Len(res) # Cardinality(exact) THEN {"dup"} ELSE {})
                                 \cup (IF \E i, j \in DOMAIN res : i < j /\ res[i][1] >= res[j][1] THEN {"sorted"} ELSE {})
               /\ kn' = KnNext(H, kn, G) /\ ob' = ObNext(H, ob, G) /\ dd' = DdNext(H, kn, ob, dd, G)
-              /\ wit' = W((IF \E n \in Names : seen[n] # None /\ seen[n].t = (rg0[r] - rexp[r]) THEN {"get_boundary"} ELSE {}) \cup
+              /\ W((IF \E n \in Names : seen[n] # None /\ seen[n].t = (rg0[r] - rexp[r]) THEN {"get_boundary"} ELSE {}) \cup
                           (IF \E a \in Adds(H) : MustHave(H, kn, G, a, MaxAge) THEN {"levelA_must"} ELSE {}) \cup
                           (IF \E a \in Adds(H) : a \in consumed /\ ~ConsBy(H, kn, G, a) THEN {"consumed_but_not_provably"} ELSE {}) \cup
                           (IF Len(res) >= 2 THEN {"two_records"} ELSE {}))
@@ -160,11 +161,11 @@ MgrGet(r) ==
 \* ------------------------------------------------------------------ ticker and clock
 TickFire == /\ now >= nextTick /\ tickc' = 1 /\ nextTick' = nextTick + Period
             /\ UNCHANGED <<now, In, seen, ppc, prec, rpc, rexp, rg0, lastExp, H, lastc, consAt, consumed, kn, ob, dd, ngets,
-                           afail, bfail, wit>>
+                           afail, bfail>>
 Advance == /\ now < MaxTime /\ now' = now + 1
            /\ (Timely => now < nextTick /\ tickc = 0)
            /\ UNCHANGED <<In, seen, ppc, prec, rpc, rexp, rg0, tickc, nextTick, lastExp, H, lastc, consAt, consumed, kn, ob,
-                          dd, ngets, afail, bfail, wit>>
+                          dd, ngets, afail, bfail>>
 
 Mgr == MgrIn \/ MgrClean \/ \E r \in Readers : MgrGet(r)
 Next == \/ \E p \in Producers : (\E n \in Names : AddStart(p, n)) \/ AddSend(p)
@@ -212,16 +213,4 @@ L1_AddReturns == \A p \in Producers : (ppc[p] = "send") ~> (ppc[p] = "idle")
 L2_GetReturns == \A r \in Readers : (rpc[r] = "req") ~> (rpc[r] = "idle")
 L3_InDrains == <>[](In = <<>>)
 
-\* reachability witnesses (each must be VIOLATED in the witness run)
-Wit(x) == x \notin wit
-W_add_blocked == Wit("add_blocked")
-W_overwrite == Wit("overwrite")
-W_stale == Wit("stale_stamp_overwrites_newer")
-W_old == Wit("consumed_when_already_old")
-W_clean_boundary == Wit("clean_boundary")
-W_cleaned == Wit("cleaned")
-W_get_boundary == Wit("get_boundary")
-W_must == Wit("levelA_must")
-W_unprovable == Wit("consumed_but_not_provably")
-W_two == Wit("two_records")
 =============================================================================
